@@ -809,6 +809,28 @@ class Engine(Executor):
         frame.locals.update(bound)
         return None
 
+    #: decorators that leave the decorated function's behaviour as its body says (or whose effect is modelled elsewhere:
+    #: inject.params by the injection models, v_args by the fold models, marshmallow hooks by A-MARSHMALLOW)
+    NEUTRAL_DECORATORS = {"staticmethod", "classmethod", "property", "abstractmethod", "abc.abstractmethod", "overload",
+                          "typing.overload", "inject.params", "v_args", "post_load", "pre_load", "post_dump", "pre_dump",
+                          "wraps", "functools.wraps"}
+    #: functions whose caching decorators are the subject of C11 (verified there: tree_copy.decorated)
+    CACHED_PARSERS = {"ahbicht.expressions.condition_expression_parser:parse_condition_expression_to_tree",
+                      "ahbicht.expressions.ahb_expression_parser:parse_ahb_expression_to_single_requirement_indicator_expressions"}
+
+    def check_decorators(self, fn: FuncV) -> None:
+        """the body of a function is what the engine executes: a decorator it does not know (a cache, a retry, a
+        wrapper ...) may change what a call does, so such a function is outside the supported subset"""
+        if not fn.mod.name.startswith("ahbicht"):
+            return
+        for d in getattr(fn.node, "decorator_list", []):
+            name = ast.unparse(d.func if isinstance(d, ast.Call) else d)
+            if name in self.NEUTRAL_DECORATORS:
+                continue
+            if name in ("lru_cache", "functools.lru_cache", "tree_copy") and fn.qualname in self.CACHED_PARSERS:
+                continue
+            raise Unsupported(f"decorator @{name} on {fn.qualname} is not modelled")
+
     def eval_default(self, fn: FuncV, expr: ast.expr):
         st = State()
         fid = self.new_oid()
@@ -835,6 +857,7 @@ class Engine(Executor):
                 out.append((s, v))
             return out
         self.inlined_seen.add(fn.qualname)
+        self.check_decorators(fn)
         fr = Frame(self.new_oid(), fn.mod, fn.closure_fid, fn.qualname, fn.cls)
         for n in assigned_names(fn.node):
             fr.locals[n] = _UNBOUND
